@@ -524,24 +524,29 @@ deriving Inhabited
 def ToolEv.ownIn (t : ToolEv) : Schema := t.decl.ownIn t.env
 def ToolEv.ownOut (t : ToolEv) : Option Schema := t.decl.ownOut t.env
 
+/-- The monitor's booking of the tools the IMPLEMENTATION holds on the current server: an `ok` books the
+tool under its name (replacing one of that name), anything else leaves the table as it is (an AddTool that
+fails replaces nothing). -/
+def MState.book (d : MState) (t : ToolEv) (o : ToolObs) : MState :=
+  if o.isOk then
+    { d with tys := (t.name, t.ity, t.oty, t.ownIn, t.ownOut) :: d.tys.filter (·.1 != t.name), last := some t.name }
+  else d
+
 /-- AddTool on the current server. AddTool must reject exactly the declared schemas with a default that
 is invalid for its own subschema; the cache keeps what the input side stored. -/
 def MState.regTool (d : MState) (t : ToolEv) (o : ToolObs) : MState × ToolOut :=
+  let w := d.world.step t.env (.add t.name t.decl)
+  let b := d.book t o
   match (register t.env d.world.cacheOf t.decl).1 with
-  | none => ({ d with world := d.world.step t.env (.add t.name t.decl) }, .addErr)
+  | none => ({ b with world := w }, .addErr)
   | some _ =>
-    let w := d.world.step t.env (.add t.name t.decl)
     match o with
-    | .other =>
-      ({ d with world := { w with tools := w.tools.filter (·.1 != t.name) }, tys := d.tys.filter (·.1 != t.name) },
-       .expected none)
+    | .other => ({ b with world := { w with tools := w.tools.filter (·.1 != t.name) } }, .expected none)
     | .ok pi po =>
-      let d' : MState :=
-        { world := w, tys := (t.name, t.ity, t.oty, t.ownIn, t.ownOut) :: d.tys.filter (·.1 != t.name), last := some t.name }
       -- what tools/list advertises must be the tool's own schemas
       match pubClause t.ownIn t.ownOut pi po with
-      | none => (d', .accept)
-      | some c => (d', .expected (some c))
+      | none => ({ b with world := w }, .accept)
+      | some c => ({ b with world := w }, .expected (some c))
 
 def MState.toolD (d : MState) (name : String) : Option ToolD :=
   match d.world.tools.find? (·.1 == name), d.tys.find? (·.1 == name) with
